@@ -196,6 +196,7 @@ type histFile struct {
 	ID8       string // first 8 characters of the request id (from the file name)
 	Lines     int    // complete, parsable status lines
 	Last      *model.Status
+	LastLen   int // length of that line in bytes
 	Size      int64
 }
 
@@ -219,6 +220,7 @@ func parseHistFile(path string) *histFile {
 		if json.Unmarshal([]byte(line), st) == nil && st.RequestID != "" {
 			hf.Lines++
 			hf.Last = st
+			hf.LastLen = len(line)
 		}
 	}
 	return hf
